@@ -230,3 +230,96 @@ Proof.
   - exact Hv.
   - rewrite Herr in Hs'. discriminate.
 Qed.
+
+(** * The hook never takes anything back: the community pool keeps at least the remainder *)
+
+Record hook_mono (b b' : bank) : Prop := {
+  hm_distr : bal b ADistr <= bal b' ADistr;
+  hm_inc : bal b AInc <= bal b' AInc;
+  hm_pool : 0 <= bal b' APool <= bal b APool }.
+
+Lemma hook_mono_trans b1 b2 b3 : hook_mono b1 b2 -> hook_mono b2 b3 -> hook_mono b1 b3.
+Proof. intros [A1 A2 A3] [B1 B2 B3]. constructor; lia. Qed.
+
+Lemma send_inv from to amt b b' : send from to amt b = Ok b' -> amt = 0 \/ amt <= bal b from.
+Proof.
+  unfold send. destruct (amt =? 0) eqn:E0; [left; apply Z.eqb_eq; exact E0|].
+  destruct (bal b from <? amt) eqn:E; [discriminate|]. right. apply Z.ltb_ge. exact E.
+Qed.
+
+Lemma fund_pool_mono amt b b' : 0 < amt -> 0 <= bal b APool -> fund_community APool amt b = Ok b' -> hook_mono b b'.
+Proof.
+  intros Ha Hp H. destruct (fund_community_spec _ _ _ _ H) as [Hb _].
+  unfold fund_community, bind in H. destruct (send APool ADistr amt b) as [b1|] eqn:E; [|discriminate].
+  destruct (send_inv _ _ _ _ _ E) as [Hz|Hle]; [lia|].
+  constructor; rewrite !Hb; unfold delta; cbn [acct_eqb]; lia.
+Qed.
+
+Lemma send_pool_mono amt b b' : 0 < amt -> 0 <= bal b APool -> send APool AInc amt b = Ok b' -> hook_mono b b'.
+Proof.
+  intros Ha Hp H. destruct (send_spec _ _ _ _ _ H) as [Hb _].
+  destruct (send_inv _ _ _ _ _ H) as [Hz|Hle]; [lia|].
+  constructor; rewrite !Hb; unfold delta; cbn [acct_eqb]; lia.
+Qed.
+
+Lemma allocate_records_mono asset total rs : forall b b',
+  0 <= bal b APool -> allocate_records asset total rs b = Ok b' -> hook_mono b b'.
+Proof.
+  induction rs as [|[g w] r IH]; intros b b' Hp H; cbn [allocate_records] in H.
+  - inversion H; subst. constructor; lia.
+  - destruct (alloc_amount asset w total <=? 0) eqn:E; [apply IH; assumption|]. apply Z.leb_gt in E.
+    unfold bind in H. destruct (g =? 0).
+    + destruct (fund_community APool (alloc_amount asset w total) b) as [b1|] eqn:E1; [|discriminate].
+      pose proof (fund_pool_mono _ _ _ E Hp E1) as M1.
+      eapply hook_mono_trans; [exact M1|]. apply IH; [apply (hm_pool _ _ M1)|assumption].
+    + destruct (send APool AInc (alloc_amount asset w total) b) as [b1|] eqn:E1; [|discriminate].
+      pose proof (send_pool_mono _ _ _ E Hp E1) as M1.
+      eapply hook_mono_trans; [exact M1|]. apply IH; [apply (hm_pool _ _ M1)|assumption].
+Qed.
+
+Lemma hook_monotone cfg b b' : 0 <= bal b APool -> after_distribute_hook cfg b = Ok b' -> hook_mono b b'.
+Proof.
+  intros Hp. unfold after_distribute_hook, allocate_asset.
+  destruct (bal b APool =? 0) eqn:E0; [intros H; inversion H; subst; constructor; lia|]. apply Z.eqb_neq in E0.
+  destruct (d_total cfg =? 0).
+  - destruct (fund_community APool (bal b APool) b) as [b1|] eqn:E; [|discriminate].
+    intros H; inversion H; subst. apply (fund_pool_mono (bal b APool)); [lia|assumption|assumption].
+  - destruct (allocate_records (bal b APool) (d_total cfg) (d_records cfg) b) as [b1|] eqn:E; [|discriminate].
+    intros H; inversion H; subst. eapply allocate_records_mono; eassumption.
+Qed.
+
+(* final state of a successful minting epoch: the community pool (module account and fee-pool entry) holds at least
+   the remainder plus the developer parts addressed to it; pool incentives + incentives hold at most the pool share *)
+Theorem community_gets_remainder cfg s e s' :
+  valid_cfg cfg -> 0 <= s_prov s -> p_start cfg <= e -> 0 <= bal (s_bank s) APool ->
+  after_epoch_end cfg s true e = Ok s' ->
+  let M := minted_at cfg s e in
+  let b := s_bank s in let b' := s_bank s' in
+  bal b ADistr + comm_of cfg M + dev_to_community cfg (dev_of cfg M) <= bal b' ADistr /\
+  cpool b + comm_of cfg M + dev_to_community cfg (dev_of cfg M) <= cpool b' /\
+  share M (p_comm cfg) <= comm_of cfg M /\
+  bal b AInc <= bal b' AInc /\ 0 <= bal b' APool <= bal b APool + share M (p_pool cfg).
+Proof.
+  intros V Hp He Hpool H M b b'. subst b b'.
+  destruct (mint_epoch_spec _ _ _ _ V Hp He H) as [_ [_ [b1 ME]]]. fold M in ME.
+  assert (HM : 0 <= M) by (apply minted_at_nonneg; assumption).
+  pose proof (share_nonneg M _ HM (v_pool _ V)) as Hsp.
+  (* recover the hook call *)
+  unfold after_epoch_end in H. cbn [negb] in H. rewrite (proj2 (Z.ltb_ge _ _) He) in H. fold M in H.
+  unfold bind in H at 1. unfold distribute_minted_coin in H. unfold bind in H at 1.
+  destruct (distribute_minted_coin_pre cfg M (mint_coins M (s_bank s))) as [b1'|] eqn:Epre; [|discriminate].
+  destruct (after_distribute_hook cfg b1') as [b2|] eqn:Eh; [|discriminate].
+  inversion H; subst s'; clear H. cbn [s_bank].
+  destruct (distribute_pre_spec _ _ _ _ V HM Epre) as [Hb [Hc _]].
+  destruct (mint_coins_spec M (s_bank s)) as [Hmb [Hmc _]].
+  assert (Hpool1 : bal b1' APool = bal (s_bank s) APool + share M (p_pool cfg)).
+  { rewrite Hb, Hmb, dev_delta_other by (try discriminate; intros; discriminate). unfold delta; cbn [acct_eqb]. lia. }
+  assert (Hdistr1 : bal b1' ADistr = bal (s_bank s) ADistr + comm_of cfg M + dev_to_community cfg (dev_of cfg M)).
+  { rewrite Hb, Hmb, dev_delta_distr. unfold delta; cbn [acct_eqb]. lia. }
+  assert (Hinc1 : bal b1' AInc = bal (s_bank s) AInc).
+  { rewrite Hb, Hmb, dev_delta_other by (try discriminate; intros; discriminate). unfold delta; cbn [acct_eqb]. lia. }
+  destruct (hook_monotone cfg b1' b2 ltac:(lia) Eh) as [M1 M2 M3].
+  pose proof (hook_spec cfg b1' b2 Eh) as HR. pose proof (hr_cpool _ _ HR) as HC.
+  rewrite Hmc in Hc.
+  split; [lia|]. split; [lia|]. split; [apply comm_ge_share; assumption|]. split; lia.
+Qed.
